@@ -23,8 +23,8 @@ type engine struct {
 	tier    string
 	seed    int
 	opts    solveOpts
-	vcCache map[*ssa.Function]*funcVC
-	vcErr   map[*ssa.Function]error
+	vcCache map[vcKey]*funcVC
+	vcErr   map[vcKey]error
 	known   *knownFindings
 }
 
@@ -40,7 +40,7 @@ func newEngine(repo, verif, tier string, patterns []string) (*engine, error) {
 	}
 	w.db = db
 	w.specReads = w.specFootprints()
-	e := &engine{w: w, verif: verif, tier: tier, vcCache: map[*ssa.Function]*funcVC{}, vcErr: map[*ssa.Function]error{}}
+	e := &engine{w: w, verif: verif, tier: tier, vcCache: map[vcKey]*funcVC{}, vcErr: map[vcKey]error{}}
 	e.ma = w.computeModsets()
 	w.loadSecs = time.Since(t0).Seconds()
 	e.opts = solveOpts{timeout: 10 * time.Second, workers: 14}
@@ -82,6 +82,9 @@ func contractMentions(ct *contract, prop string) (labelled, safety bool) {
 			safety = true
 		}
 	}
+	if ct.hasLayer(prop) {
+		labelled = true
+	}
 	return
 }
 
@@ -99,23 +102,49 @@ func (e *engine) implMethods(ct *contract) []*ssa.Function {
 	return out
 }
 
-func (e *engine) buildVC(fn *ssa.Function) (*funcVC, error) {
-	if vc, ok := e.vcCache[fn]; ok {
-		return vc, e.vcErr[fn]
+type vcKey struct {
+	fn    *ssa.Function
+	layer string
+}
+
+// layerFor: a function is verified in the property's own layer if one of its contracts has clauses for it.
+func (e *engine) layerFor(fn *ssa.Function, prop string) string {
+	if ct := e.w.db.Contracts[fn.String()]; ct != nil && ct.hasLayer(prop) {
+		return prop
+	}
+	for _, ct := range e.w.ifaceContractsFor(fn) {
+		if ct.hasLayer(prop) {
+			return prop
+		}
+	}
+	return ""
+}
+
+func (e *engine) buildVC(fn *ssa.Function, layer string) (*funcVC, error) {
+	key := vcKey{fn, layer}
+	if vc, ok := e.vcCache[key]; ok {
+		return vc, e.vcErr[key]
 	}
 	vc := &funcVC{w: e.w, fn: fn, c: newSMT(e.w), ma: e.ma, nPanicSites: map[string]int{}, closures: map[string]closureInfo{},
-		localSorts: map[string]string{}, callCount: map[string]int{}, assumed: map[string]bool{}}
+		localSorts: map[string]string{}, callCount: map[string]int{}, assumed: map[string]bool{}, layer: layer}
 	vc.ct = e.w.db.Contracts[fn.String()]
 	vc.icts = e.w.ifaceContractsFor(fn)
 	seen := map[string]bool{}
 	for _, ct := range vc.allContracts() {
 		for _, p := range ct.Safety {
+			// a property with its own layer gets its panic obligations from the layered VC only
+			if layer == "" && e.layerFor(fn, p) != "" {
+				continue
+			}
+			if layer != "" && p != layer {
+				continue
+			}
 			if !seen["s"+p] {
 				seen["s"+p] = true
 				vc.safetyProps = append(vc.safetyProps, p)
 			}
 		}
-		for _, cl := range ct.Clauses {
+		for _, cl := range ct.clausesFor(layer) {
 			if i := strings.Index(cl.Label, "."); i > 0 && !seen[cl.Label[:i]] {
 				seen[cl.Label[:i]] = true
 				vc.props = append(vc.props, cl.Label[:i])
@@ -131,8 +160,8 @@ func (e *engine) buildVC(fn *ssa.Function) (*funcVC, error) {
 	vc.safety = len(vc.safetyProps) > 0
 	vc.termP = vc.safetyProps
 	err := vc.run()
-	e.vcCache[fn] = vc
-	e.vcErr[fn] = err
+	e.vcCache[key] = vc
+	e.vcErr[key] = err
 	return vc, err
 }
 
@@ -201,7 +230,7 @@ func (e *engine) check(prop string) *checkResult {
 		fn := work[0]
 		work = work[1:]
 		order = append(order, fn)
-		vc, err := e.buildVC(fn)
+		vc, err := e.buildVC(fn, e.layerFor(fn, prop))
 		if err != nil {
 			res.errors = append(res.errors, err.Error())
 			continue
@@ -232,8 +261,9 @@ func (e *engine) check(prop string) *checkResult {
 		}
 	}
 	for _, fn := range order {
-		vc := e.vcCache[fn]
-		if vc == nil || e.vcErr[fn] != nil {
+		layer := e.layerFor(fn, prop)
+		vc := e.vcCache[vcKey{fn, layer}]
+		if vc == nil || e.vcErr[vcKey{fn, layer}] != nil {
 			continue
 		}
 		if isPrimary[fn] {
@@ -251,7 +281,7 @@ func (e *engine) check(prop string) *checkResult {
 			res.notes[n] = true
 		}
 		for _, o := range vc.obls {
-			if !e.attributed(o, prop, isPrimary[fn], usedBy[fn]) {
+			if layer == "" && !e.attributed(o, prop, isPrimary[fn], usedBy[fn]) {
 				continue
 			}
 			res.obls = append(res.obls, o)
